@@ -1,5 +1,5 @@
 import StepModel.P21.Writer
-import StepModel.P21.ReaderLemmas8
+import StepModel.P21.ReaderLemmas10
 import StepModel.Generated.P21RWGen
 /-! # C01 — exchange files survive read-then-write: property theorems
 
@@ -190,9 +190,11 @@ theorem selText_scan {F} (env : Env F) (m : SelMember) (n0 : Byte) (ns : List By
   rw [e]
   exact Passes.append hname (Passes.append (Passes.plain 40 (by decide)) (Passes.append (Passes.seps (Seps.blanks sB hsB)) hT))
 
-/-- the element kinds of aggregates for which the element loop is proved: INTEGER, REAL, STRING, ENUMERATION / BOOLEAN /
-    LOGICAL, BINARY and entity references, each under the same provisos as the attribute of that kind, with any layout
-    before and after the element -/
+/-- the element kinds of aggregates for which the element loop is proved: INTEGER, REAL, NUMBER, STRING, ENUMERATION /
+    BOOLEAN / LOGICAL, BINARY, entity references, typed SELECT values and references, each under the same provisos as
+    the attribute of that kind, with any layout before and after the element; and — for aggregates of aggregates, which
+    the reader keeps as raw text — any `( balanced text )` (`Bal`: nested parentheses, string literals, any other
+    characters but `;` `/` NUL) with any layout before it -/
 inductive ElemCovered {F} (env : Env F) : ElemTy → ElemG F → Prop where
   | integer (tok : List Byte) (htok : isInteger tok = true) (hlo : IStream.longMin ≤ denoteInteger tok)
       (hhi : denoteInteger tok < IStream.longMax) (before after : List Byte) (hb : Seps before) (ha : Seps after) :
@@ -216,6 +218,14 @@ inductive ElemCovered {F} (env : Env F) : ElemTy → ElemG F → Prop where
       (before after : List Byte) (hb : Seps before) (ha : Seps after) :
       ElemCovered env (.entity tg) { tok := 35 :: ds, before := before, after := after,
                                      v := .atom (.ref ((digitsVal ds 0 : Nat) : Int)) }
+  | generic (body : List Byte) (hb : Bal body) (before : List Byte) (hbf : Seps before) :
+      ElemCovered env .generic { tok := 40 :: (body ++ [41]), before := before, after := [],
+                                 v := .atom (.undef (40 :: (body ++ [41]))) }
+  | number (hnum : env.cfg.numberElemReadsNumber = true) (tok : List Byte) (dec : Decimal) (v : F)
+      (htok : isReal tok = true ∨ isInteger tok = true) (hden : denoteReal tok = some dec)
+      (hv : env.ops.ofDecimal dec = some v) (hnn : env.ops.isRealNull v = false)
+      (before after : List Byte) (hb : Seps before) (ha : Seps after) :
+      ElemCovered env .number { tok := tok, before := before, after := after, v := .atom (.real v) }
   | selTyped (n : String) (sd : SelectD) (hsd : env.dict.select? n = some sd) (m : SelMember) (n0 : Byte) (ns : List Byte)
       (hn0 : isAlpha n0 = true) (hns : ns.all kwc = true)
       (hfind : sd.members.find? (fun x => x.name == bytesToString (upperBytes (n0 :: ns)) && !x.ty.isEntity) = some m)
@@ -241,6 +251,9 @@ theorem elemCovered_rd {F} (env : Env F) (hcfg : env.lex.criSkipsComments = true
   | binary hex hne hhex before after hb ha => exact ElemRd.binary env hcfg hagg hex hne hhex before after hb ha
   | ref tg ds hne hds hhi hfound before after hb ha =>
     exact ElemRd.ref env hcfg hagg tg ds hne hds hhi hfound before after hb ha
+  | generic body hb before hbf => exact ElemRd.generic env hcfg hagg body hb before hbf
+  | number hnum tok dec v htok hden hv hnn before after hb ha =>
+    exact ElemRd.number env hcfg hagg hnum tok dec v htok hden hv hnn before after hb ha
   | selTyped n sd hsd m n0 ns hn0 hns hfind tok av hleaf sB sC hsB hsC before after hb ha =>
     exact ElemRd.selTyped env hcfg hagg n sd hsd m n0 ns hn0 (all_imp (fun c => kwc_selc) _ hns) hfind tok av
       (leafCovered_rd env hcfg m tok av hleaf) sB sC hsB hsC before after hb ha
@@ -261,6 +274,9 @@ theorem elemCovered_scan {F} (env : Env F) (ety : ElemTy) (e : ElemG F) (h : Ele
   | ref tg ds hne hds hhi hfound before after hb ha =>
     exact ⟨(Passes.append (a := [35]) (Passes.plain 35 (by decide))
       (Passes.all_plain _ (all_imp (fun c => digit_plain) _ hds))).toS, hb, ha⟩
+  | generic body hb before hbf => exact ⟨hb.passes_paren.toS, hbf, Seps.blanks [] (by simp)⟩
+  | number hnum tok dec v htok hden hv hnn before after hb ha =>
+    exact ⟨(Passes.all_plain _ (by rcases htok with h | h; exact isReal_plain _ h; exact isInteger_plain _ h)).toS, hb, ha⟩
   | selTyped n sd hsd m n0 ns hn0 hns hfind tok av hleaf sB sC hsB hsC before after hb ha =>
     exact ⟨(selText_scan env m n0 ns hn0 hns tok av hleaf sB sC hsB hsC).toS, hb, ha⟩
   | selRef n sd hsd m ds hne hds hhi hasg before after hb ha =>
@@ -894,6 +910,9 @@ theorem C01_read_file_partial {F} (ops : FloatOps F) (lex : LexCfg) (cfg : RWCfg
 
 /-- in the source as it is now the three repairs are present -/
 theorem C01_source_skip_instance_skips_comments : Generated.rwCfg.skipInstanceSkipsComments = true := by decide
+
+/-- … and the elements of aggregates of NUMBER are read as NUMBERs (repair C01-6) -/
+theorem C01_source_number_elements_read_as_numbers : Generated.rwCfg.numberElemReadsNumber = true := by decide
 
 /-! ### write ∘ read at file level -/
 
